@@ -227,6 +227,21 @@ def check(case, ctx):
     what = case["what"]
     dsp = case["ds"]
     d = case["d"]
+    unop = '-'
+    if what == 'neg':
+        # the three unary operators, on variables of several value types (bool flags, small integers next to the float ones)
+        import zlib, copy as _copy
+        zz = zlib.crc32(repr(sorted(dsp["axes"].items())).encode())
+        unop = ['-', '-', '+', '~'][zz % 4]
+        dsp = _copy.deepcopy(dsp)
+        for j_, (k_, sp_) in enumerate(sorted(dsp["vars"].items())):
+            v_ = np.asarray(sp_["values"])
+            fin = np.nan_to_num(v_.astype(float), nan=0.0)
+            if unop == '~':
+                sp_["values"] = (fin % 2 == 0) if (zz + j_) % 2 else fin.astype(np.int64)
+            elif (zz + j_) % 3 == 0:
+                sp_["values"] = (fin % 100).astype([np.int8, np.uint8, np.float32][(zz // 3 + j_) % 3])
+        ctx.outcomes['unary-' + {'-': 'neg', '+': 'pos', '~': 'invert'}[unop]] += 1
     ds = build_ds(dsp)
     free = {k: gen.build(sp) for k, sp in dsp["vars"].items()}     # free-standing twins
     if what in ('reindex', 'sort_axis', 'reduce', 'arith', 'arith_scalar', 'neg', 'stack_ds', 'concat_ds'):
@@ -236,6 +251,15 @@ def check(case, ctx):
         common.set_tols(ds, z_, ctx.outcomes)
         for f_ in free.values():
             common.set_tols(f_, z_)
+    if what == 'sort_axis' and d in ds.dims and ds.axes[d].values.dtype.kind in 'if':
+        import zlib
+        if zlib.crc32(repr(dsp["axes"][d][0]).encode()) % 4 == 0:
+            # numbers held in an object array (an axis that once held a str label, or was merged with one): still ordered by value
+            ds.axes[d].values = ds.axes[d].values.astype(object)
+            for f_ in free.values():
+                if d in f_.dims:
+                    f_.axes[d].values = f_.axes[d].values.astype(object)
+            ctx.outcomes['sort_axis-object-dtype-numbers'] += 1
     dimpos = list(ds.dims).index(d) if d in ds.dims else None
     axis = dimpos if case["by_pos"] and dimpos is not None else d
     lab, kind = dsp["axes"][d]
@@ -346,9 +370,10 @@ def check(case, ctx):
         fn = lambda: op(ds, s)
         expected = lambda v: op(v, s)
     elif what == 'neg':
-        label = "-ds"
-        fn = lambda: -ds
-        expected = lambda v: -v
+        label = "%sds (value types %s)" % (unop, sorted(set(str(np.asarray(sp_["values"]).dtype) for sp_ in dsp["vars"].values())))
+        uf_ = {'-': (lambda x: -x), '+': (lambda x: +x), '~': (lambda x: ~x)}[unop]
+        fn = lambda: uf_(ds)
+        expected = uf_
     else:
         lst = [build_ds(x) for x in case["list"]]
         frees = [{k: gen.build(sp) for k, sp in x["vars"].items()} for x in case["list"]]
